@@ -79,6 +79,7 @@ def simrun_replay(choices, out):
 
 
 VIOL_RE = re.compile(r'<<"VIOLATION", \{([^}]*)\}, (\d+), (\d+), (\d+)>>')
+DRIFT_RE = re.compile(r'<<"DRIFT", "(\w+)", \{([^}]*)\}, (\d+), (\d+), (\d+)>>')
 
 
 def tlc_trace(trace, metadir, module="Trace", cfg="Trace.cfg", timeout=1800, heap="6g"):
@@ -94,13 +95,17 @@ def tlc_trace(trace, metadir, module="Trace", cfg="Trace.cfg", timeout=1800, hea
     for m in VIOL_RE.finditer(out):
         names = [x.strip().strip('"') for x in m.group(1).split(",") if x.strip()]
         viol.append({"names": names, "line": int(m.group(2)), "run": int(m.group(3)), "seq": int(m.group(4))})
+    drift = []
+    for m in DRIFT_RE.finditer(out):
+        drift.append({"ev": m.group(1), "fields": [x.strip().strip('"') for x in m.group(2).split(",") if x.strip()],
+                      "line": int(m.group(3)), "run": int(m.group(4)), "seq": int(m.group(5))})
     ms = re.search(r"(\d+) states generated, (\d+) distinct states found", out)
     states = int(ms.group(2)) if ms else 0
     incomplete = "TRACE-INCOMPLETE" in out
     ok = "Model checking completed. No error has been found." in out
     if not ok or incomplete:
         raise ToolError("TLC trace evaluation did not complete for %s:\n%s" % (trace, out[-5000:]))
-    return {"violations": viol, "states": states}
+    return {"violations": viol, "states": states, "drift": drift}
 
 
 def cm_path():
